@@ -79,7 +79,9 @@ class Profiles(object):
         'escape': r'{unicode}|\\[ -~\u0080-\u01ff]',
         #   'escape': r'{unicode}|\\[ -~\200-\4177777]',
         'int': r'[-]?\d+',
-        'nmchar': r'[\w-]|{nonascii}|{escape}',
+        # (not \w: it matches non-ASCII letters as {nonascii} does, and a name of
+        # n such letters could be read in 2**n ways when validation fails)
+        'nmchar': r'[_a-z0-9-]|{nonascii}|{escape}',
         'num': r'[-]?\d+|[-]?\d*\.\d+',
         'positivenum': r'\d+|\d*\.\d+',
         'number': r'{num}',
